@@ -6,6 +6,18 @@ BASELINE = ("cd /repo && cargo nextest run --workspace --no-fail-fast --tool-con
             "--profile pb --test-threads 8 --offline")
 TECH = "contract-based deductive verification: Verus (Z3) on functions of /repo extracted mechanically on every run"
 CLAIMED = {
+ "C07": dict(
+   text=("Partial claim — a thin slice: the one clause of the statement that is decided by hand-written run-time code. Verus discharges, "
+         "on the real text of pavex::router::default_fallback and AllowedMethods::allow_header_value, that the default fallback answers "
+         "405 with an Allow header listing exactly the methods registered for the matched path when there is at least one, and 404 "
+         "without an Allow header otherwise (no method registered, or AllowedMethods::All). The header text itself "
+         "(MethodAllowList::allow_header_value: join over iterator adapters) is an assumed contract checked by a BOUNDED, exhaustive "
+         "native stand-in: every ordered list of up to 4 distinct methods out of 11 through the real functions."),
+   note=("NOT decided — and this is most of C07: WHICH handler or fallback a request reaches (domain guard, path pattern with nesting "
+         "prefixes, method guard, innermost covering blueprint) and that the server starts without panicking are properties of the router "
+         "that pavexc GENERATES (matchit tables emitted by codegen/router.rs), i.e. of the emitted program; no contract on pavexc or on the "
+         "runtime reaches them (DESIGN §1.3). Response is modelled by status code + Allow header only."),
+   design="§3/C07"),
  "C09": dict(
    text=("Partial claim — the 'fails atomically' half, on the one function that decides it. The verbatim text of pavexc_cli::generate "
          "(the compiler proper, App::build and App::codegen, is an opaque oracle whose verdicts are ghost constants of the run) is "
